@@ -584,7 +584,7 @@ class G:
         ("7911778", "from t\nselect {a + 1, b + 1}\njoin u (true)\ntake 3"),
         # guards (no fix commit): valid today because assign_names renames a declaration whose name is taken
         ("guard-assign-names", "let t = (from t | select {a, b})\nfrom t\nfilter a > 1"),
-        ("guard-assign-names", "module m1 {\n  let x = (from t | select {a} | take 3)\n}\nmodule m2 {\n  let x = (from u | select {a} | take 2)\n}\nfrom m1.x\njoin y = m2.x (==a)\nselect {m1.x.a, ya = y.a}"),
+        ("guard-assign-names", "module m1 {\n  let x = (from t | select {a} | take 3)\n}\nmodule m2 {\n  let x = (from u | select {a} | take 2)\n}\nfrom b = m1.x\njoin y = m2.x (b.a == y.a)\nselect {b.a, ya = y.a}"),
         ("guard-assign-names", "module m1 {\n  let x = (from t | select {a} | take 3)\n}\nmodule m2 {\n  let x = (from u | select {a} | take 2)\n}\nfrom m1.x\nappend m2.x"),
         ("guard-assign-names", "let u = (from u | filter a > 1 | take 4)\nfrom t\njoin u (==id)\nselect {t.a, u.d}"),
         ("006e33c", "from t\nderive {x = that}"),
